@@ -977,7 +977,10 @@ VARIANTS = [
     Variant("C15-m-verbose-as-result-all", "R15.4", "mutant", [(_E, "            decision_threshold=decision_threshold,\n            result_all=result_all,", "            decision_threshold=decision_threshold if result_all else None,\n            result_all=result_all,")]),
     Variant("C15-m-unordered-pool", "R15.5", "mutant", [(_I, "        metric_dicts: list[dict[Metric, float]] = pool.starmap(\n            _evaluate_instance, instance_pairs\n        )", "        metric_dicts: list[dict[Metric, float]] = list(pool.imap_unordered(\n            lambda a: _evaluate_instance(*a), instance_pairs\n        ))")]),
     Variant("C15-m-stateful-evaluate", "R15.6", "mutant", [(_E, "        processing_pair = self.__expected_input(prediction_arr, reference_arr)\n", "        processing_pair = self.__expected_input(prediction_arr, reference_arr)\n        self.__last_shape = prediction_arr.shape\n")]),
-    Variant("C15-m-global-counter", "R15.7", "mutant", [(_F, "def _round_to_n(", "_CALLS = []\n\n\ndef _count_call():\n    _CALLS.append(1)\n\n\ndef _round_to_n(")]),
+    # a module-level list that is appended to and READ (how many calls so far): history reaches a value
+    Variant("C15-m-global-counter", "R15.7", "mutant", [(_F, "def _round_to_n(", "_CALLS = []\n\n\ndef _count_call():\n    _CALLS.append(1)\n    return len(_CALLS)\n\n\ndef _round_to_n(")]),
+    # the same list only ever appended to (never read anywhere): carries nothing into any result
+    Variant("C15-t-global-write-only", "R15.7", "twin", [(_F, "def _round_to_n(", "_CALLS = []\n\n\ndef _count_call():\n    _CALLS.append(1)\n\n\ndef _round_to_n(")]),
     Variant("C15-t-group-any-nocopy", "R15.1", "twin", [(_L, "        array = array.copy()\n        return array\n", "        return array\n")], note="harmless: every later write is preceded by a copy/astype"),
     Variant("C15-t-list-slice", "R15.3", "twin", [(_A, "self.__evaluation_metrics = list(panoptica_evaluator.resulting_metric_keys)", "self.__evaluation_metrics = panoptica_evaluator.resulting_metric_keys[:]")]),
     Variant("C15-t-np-array", "R15.1", "twin", [(_L, "        array = array.copy()\n        array[np.isin(array, self.value_labels, invert=True)] = 0", "        array = np.array(array)\n        array[np.isin(array, self.value_labels, invert=True)] = 0")]),
